@@ -595,10 +595,11 @@ impl<'de> Visitor<'de> for IDLValueVisitor {
         use serde::de::VariantAccess;
         let (variant, visitor) = data.variant::<IDLValue>()?;
         if let IDLValue::Text(v) = variant {
-            let v: Vec<_> = v.split(',').collect();
+            // The label itself may contain commas, so split from the right.
+            let v: Vec<_> = v.rsplitn(3, ',').collect();
             let (id, style) = match v.as_slice() {
-                [name, "name", style] => (Label::Named(name.to_string()), style),
-                [hash, "id", style] => (Label::Id(hash.parse::<u32>().unwrap()), style),
+                [style, "name", name] => (Label::Named(name.to_string()), style),
+                [style, "id", hash] => (Label::Id(hash.parse::<u32>().unwrap()), style),
                 _ => unreachable!(),
             };
             let val = match *style {
